@@ -21,15 +21,19 @@ CFG = dict(
          "3 VTEPs, 4 routes, 2 each of host metadata / pools / service accounts / namespaces / services) that satisfy the upstream "
          "contract, flushed after every callback, in batches, or only at the end, optionally followed by a partial teardown; "
          "non-trivial = some flush emits both additions and removals and some object carried references; distinct by callback sequence.  "
-         "27% of the cases drive the REAL AsyncCalcGraph.loop (real sequencer, real calculation graph) over unbuffered channels with "
+         "25% of the cases drive the REAL AsyncCalcGraph.loop (real sequencer, real calculation graph) over unbuffered channels with "
          "generated mixes of update batches (callbacks run on the loop goroutine inside CalcGraph.OnUpdates), status updates "
          "(in-sync first / late / repeated / never), flush ticks (incl. bursts against the leaky-bucket cap) and health ticks; messages "
          "are attributed to loop iterations by a select handshake (no sleeps); non-trivial = updates, output and an input in-sync.  "
-         "13% are a contract-respecting prefix followed by one callback outside the contract: log.Panic in the real code vs None in the model",
+         "18% (mode xseq) add the callbacks of the complete sequencer (ModelX.v): OnDatastoreNotReady, OnConfigUpdate (stub config object), "
+         "OnEncapUpdate, OnGlobalBGPConfigUpdate, OnWireguardUpdate (incl. empty v4/v6 keys) / OnWireguardRemove, compared with xflush and "
+         "checked by ok_xtrace (wireguard removes name existing endpoints).  "
+         "12% are a contract-respecting prefix followed by one callback outside the contract: log.Panic in the real code vs None in the model",
     trusted=["Coq 8.16.1 kernel + vm_compute", "std++ (axiom-free)",
              "hand-written model coq/theories/C02/Model.v tied to felix/calc/event_sequencer.go and async_calc_graph.go by this correspondence run",
              "Go driver harness/C02 (overlay build, tag verif): its mapping of proto messages to abstract (kind,id,refs,version) messages"],
-    assumptions=["not modelled: config / ready flag / encapsulation / BGP config singletons and the wireguard maps of the sequencer",
+    assumptions=["the config object behind the sequencer's configInterface is a driver stub (changed = raw value differs from the last one "
+                 "for that source), mirrored by ModelX.x_cfg; felix/config itself is C27's subject",
                  "the code now has the repaired VXLAN phase order (fix b52c0b5; Model `late = true`; comments in Model.v/Spec.v that say "
                  "'the code as it stands' for `late = false` predate that fix): no extra restriction is needed for it.  For the old order "
                  "the theorems need Spec.no_retarget and without it the statement is refuted (c02_vtep_retarget_refuted)",
@@ -52,6 +56,7 @@ MANIFEST = dict(
          "intra-phase order) for all callback histories inside the upstream contract and all flush points, plus a correspondence run "
          "of model and specification oracle (closedness checked after every single message of the IMPLEMENTATION's stream) against the "
          "real EventSequencer driven directly, against the real AsyncCalcGraph.loop (flush throttling, in-sync forwarding) fed over "
-         "unbuffered channels, and of the real log.Panic guards against the model's None.",
+         "unbuffered channels, and of the real log.Panic guards against the model's None; ModelX.v completes the sequencer (ready flag, config, encapsulation, "
+         "BGP config, wireguard) around the unchanged Model.v with projection and wireguard theorems.",
     note="Trusted: Coq kernel; hand-written model tied to the code only by the correspondence run; Go driver.",
 )
